@@ -71,6 +71,8 @@ type world struct {
 	lastHdrTd *big.Int // mixed mode: total difficulty of the head header before the current operation
 	noModel bool // history outside the model's scope (more than 128 blocks: trie garbage collection): judged directly only
 	collect func(kind, what, detail string) // enumeration mode: violations go here instead of the run
+	probeAll  bool // ask by hash before every import of this history
+	probeSalt int
 	lagged  bool // a rewind on the pruned node fell back below its target (block head below header head) earlier in this history
 }
 
@@ -817,6 +819,45 @@ func (w *world) ancestryGap(id int) bool {
 
 // ---- running a history ------------------------------------------------------------------------------------------------
 
+// probe asks for nodes of the tree BY HASH through every by-hash accessor (they all resolve the number through
+// HeaderChain.GetBlockNumber and its cache). Queries must be pure: they may not change what later calls return. For a node
+// that is not in the database every answer must be nil/false; for a stored one they must agree with the (hash, number)
+// accessors.
+func (w *world) probe(ids []int, when string) {
+	bc := w.bc
+	for _, id := range ids {
+		b := w.t.Nodes[id].Block
+		h, n := b.Hash(), b.NumberU64()
+		hasH, hasB := bc.GetHeader(h, n) != nil, bc.GetBlock(h, n) != nil
+		w.run.Count(fmt.Sprintf("probe:by-hash:header-present=%v", hasH))
+		bad := ""
+		if (bc.GetHeaderByHash(h) != nil) != hasH {
+			bad += " GetHeaderByHash"
+		}
+		if bc.HasHeader(h, n) != hasH {
+			bad += " HasHeader"
+		}
+		if (bc.GetTdByHash(h) != nil) != (bc.GetTd(h, n) != nil) {
+			bad += " GetTdByHash"
+		}
+		if (bc.GetBlockByHash(h) != nil) != hasB {
+			bad += " GetBlockByHash"
+		}
+		if (bc.GetBody(h) != nil) != hasB {
+			bad += " GetBody"
+		}
+		if bc.HasBlock(h, n) != hasB {
+			bad += " HasBlock"
+		}
+		if (len(bc.GetBlocksFromHash(h, 1)) == 1) != hasB {
+			bad += " GetBlocksFromHash"
+		}
+		if bad != "" {
+			w.violate("c03-retrieve", "by-hash-differs-from-by-hash-and-number", fmt.Sprintf("%s: block %d (#%d) header stored=%v body stored=%v, but these by-hash accessors say otherwise:%s", when, id, n, hasH, hasB, bad))
+		}
+	}
+}
+
 func (w *world) exec(op Op) string {
 	t := w.t
 	return hx.Safe(func() string {
@@ -892,6 +933,13 @@ func (w *world) runHistory(ops []Op) {
 				}
 			}
 		}
+		// ask BY HASH for the nodes of the batch before they are imported (and for one more node of the tree): queries are
+		// pure, so this must not change the outcome of the import nor any later answer. Every second operation of every
+		// second history is left unprobed so that query-free runs stay covered as well.
+		if (op.Kind == 'I' || op.Kind == 'H') && (w.probeAll || (len(opS)+w.probeSalt)%2 == 0) {
+			w.probe(op.IDs, "before "+op.String())
+			w.probe([]int{(len(opS)*7 + w.probeSalt) % len(t.Nodes)}, "before "+op.String())
+		}
 		res := w.exec(op)
 		w.newHdrs = w.newHdrs[:0]
 		for _, id := range absent {
@@ -942,6 +990,13 @@ func (w *world) runHistory(ops []Op) {
 		}
 		d := w.dump(res)
 		outS = append(outS, d)
+		if w.prop == "C03" && !strings.HasPrefix(res, "panic") { // by-hash view of EVERY node of the tree after the call
+			all := make([]int, len(t.Nodes))
+			for i := range all {
+				all[i] = i
+			}
+			w.probe(all, "after "+op.String())
+		}
 		w.judgeC02(op)
 		if w.prop == "C03" {
 			w.judgeC03(op)
@@ -1015,7 +1070,7 @@ func Main(prop string) {
 		}
 		t := buildTree(r, n, []int{10, 30, 60}[r.Intn(3)], []int{0, 25, 50}[r.Intn(3)], race)
 		mode := modes[h%len(modes)]
-		w := &world{prop: prop, run: run, t: t, mode: mode, histID: fmt.Sprintf("hist#%d", h)}
+		w := &world{prop: prop, run: run, t: t, mode: mode, histID: fmt.Sprintf("hist#%d", h), probeSalt: h}
 		switch mode {
 		case "archive", "headers":
 			w.cache = &core.CacheConfig{Disabled: true}
@@ -1152,7 +1207,7 @@ func Main(prop string) {
 				t = buildTree(r, 5+r.Intn(10), []int{10, 30, 60}[r.Intn(3)], []int{0, 25, 50}[r.Intn(3)], r.Intn(100) < 30)
 				ops = genMixedOps(r, t)
 			}
-			w := &world{prop: prop, run: run, t: t, mode: "mixed", histID: fmt.Sprintf("hist#mixed-%d", h),
+			w := &world{prop: prop, run: run, t: t, mode: "mixed", histID: fmt.Sprintf("hist#mixed-%d", h), probeSalt: h,
 				cache: &core.CacheConfig{Disabled: true}}
 			run.Count("mode:mixed")
 			w.runHistory(ops)
